@@ -88,6 +88,8 @@ def render_rule_body(rule, ctx_text):
 
 def render_handler(spec, ctx_text, id_text):
     """the configuration script of `<name>.register`"""
+    if spec.get("raw"):
+        return spec["raw"]
     if spec.get("invalid") == "syntax":
         return "{ run: {|frame| "
     if spec.get("invalid") == "norun":
@@ -192,6 +194,8 @@ def command_model(spec, ctxs):
 
 def render_generator(spec):
     k = spec["kind"]
+    if k == "raw":
+        return spec["expr"]
     if k == "list":
         return "[%s] | each {|x| $x}" % " ".join(nu_str(x) for x in spec["strings"])
     if k == "single":
@@ -243,6 +247,10 @@ class Gen:
         # one context would answer each other for ever (that is not self-feeding, and never settles)
         if name == "h" and r.random() < 0.45:
             rules.append(self.rule("", history_ok))
+        if r.random() < 0.15:
+            # the handler unregisters itself: the request it appends carries its own id
+            r.choice(rules)["appends"].append({"topic": name + ".unregister", "meta_nu": None, "meta": None, "ttl": None,
+                                               "ctx_ref": None, "content": None})
         res = r.choice(["tail", "tail", "head"] + (["after"] if self.n_append else [])) if history_ok else "tail"
         if res == "after":
             cands = [i for i, s in enumerate(self.steps) if s["k"] == "append"]
@@ -788,7 +796,13 @@ def analyse(sc, res, drv):
                 continue
             if not ok:
                 want_o, m, _ = best
-                trig = lambda l: [dict(x[2]).get("frame_id") for x in l]
+                def trig(l):      # the invocations that left a trace, in order
+                    out = []
+                    for x in l:
+                        t = dict(x[2]).get("frame_id")
+                        if not out or out[-1] != t:
+                            out.append(t)
+                    return out
                 props = ["C14"] if trig(want_o) != trig(actual) else ["C15"]
                 # an expected output that exists under another stamp / context was produced but mis-labelled
                 exp_keys = {(x[0], dict(x[2]).get("frame_id")) for x in want_o} - {(x[0], dict(x[2]).get("frame_id")) for x in actual}
